@@ -303,4 +303,81 @@ theorem scanRows_nojump (ord : Nat) : ∀ (fxs : List Fx) (row : Nat) (st : Scan
     · intro h; simp at h
 
 
+
+
+/-! ## the player, frame by frame -/
+
+/-- render one frame, then do the sequencing of the next one -/
+def PlayEnv.stepF (e : PlayEnv) (s : PlaySt) : Option (PlaySt × PlaySt) :=
+  let s1 := e.render s
+  if s1.loopCount > 0 then none else (e.advance s1).map fun s2 => (s1, s2)
+
+/-- `n` frames without loop-counter increment: the rendered frames and the state
+after the sequencing that follows the last of them -/
+def PlayEnv.runN (e : PlayEnv) : Nat → PlaySt → Option (List PlaySt × PlaySt)
+  | 0, s => some ([], s)
+  | n + 1, s =>
+    match e.stepF s with
+    | none => none
+    | some (s1, s2) => (e.runN n s2).map fun r => (s1 :: r.1, r.2)
+
+theorem frames_runN (e : PlayEnv) : ∀ (n : Nat) (s : PlaySt) (F : List PlaySt) (s' : PlaySt),
+    e.runN n s = some (F, s') → ∀ fuel, e.frames (n + fuel) s = F ++ e.frames fuel s' := by
+  intro n
+  induction n with
+  | zero => intro s F s' h fuel; simp [PlayEnv.runN] at h; simp [h.1, h.2]
+  | succ n ih =>
+    intro s F s' h fuel
+    simp only [PlayEnv.runN] at h
+    cases hs : e.stepF s with
+    | none => simp [hs] at h
+    | some pr =>
+      obtain ⟨s1, s2⟩ := pr
+      simp only [hs] at h
+      cases hr : e.runN n s2 with
+      | none => simp [hr] at h
+      | some r =>
+        simp [hr] at h
+        have hstep := hs
+        simp only [PlayEnv.stepF] at hstep
+        split at hstep
+        · simp at hstep
+        · rename_i hlc
+          cases ha : e.advance (e.render s) with
+          | none => simp [ha] at hstep
+          | some a =>
+            simp [ha] at hstep
+            have e1 : n + 1 + fuel = (n + fuel) + 1 := by omega
+            rw [e1, PlayEnv.frames]
+            simp only [hlc, if_false, ha]
+            rw [← h.1, ← h.2, hstep.1]
+            have := ih s2 r.1 r.2 (by rw [hr]) fuel
+            rw [← hstep.2] at this
+            simp [this]
+
+theorem runN_add (e : PlayEnv) : ∀ (a : Nat) (s : PlaySt) (F1 : List PlaySt) (s1 : PlaySt) (b : Nat)
+    (F2 : List PlaySt) (s2 : PlaySt),
+    e.runN a s = some (F1, s1) → e.runN b s1 = some (F2, s2) → e.runN (a + b) s = some (F1 ++ F2, s2) := by
+  intro a
+  induction a with
+  | zero => intro s F1 s1 b F2 s2 h1 h2; simp [PlayEnv.runN] at h1; simp [← h1.1, h1.2, h2]
+  | succ a ih =>
+    intro s F1 s1 b F2 s2 h1 h2
+    have e1 : a + 1 + b = (a + b) + 1 := by omega
+    rw [e1]
+    simp only [PlayEnv.runN] at h1 ⊢
+    cases hs : e.stepF s with
+    | none => simp [hs] at h1
+    | some pr =>
+      obtain ⟨r1, r2⟩ := pr
+      simp only [hs] at h1 ⊢
+      cases hr : e.runN a r2 with
+      | none => simp [hr] at h1
+      | some r =>
+        simp [hr] at h1
+        have := ih r2 r.1 r.2 b F2 s2 (by rw [hr]) (by rw [h1.2]; exact h2)
+        rw [this]
+        simp [← h1.1]
+
+
 end Xmp.LinFlow
